@@ -205,6 +205,14 @@ def _env_json(env):
     return {"module": env["module"], "defs": {str(k): v for k, v in env["defs"].items()}}
 
 
+def str_keys(x):
+    if isinstance(x, dict):
+        return all(type(k) is str for k in x) and all(str_keys(v) for v in x.values())
+    if isinstance(x, (list, tuple)):
+        return all(str_keys(v) for v in x)
+    return True
+
+
 def sources_alike(rec, fails, stats):
     """structured sources in every documented shape convert alike"""
     from typelib import unmarshals
@@ -216,7 +224,9 @@ def sources_alike(rec, fails, stats):
     if not isinstance(wire, dict):
         return
     shapes = {"mapping": wire, "pairs": [[k, v] for k, v in wire.items()] if len(wire) != 0 else None}
-    if coregen.jsonable(wire):
+    # JSON text carries mapping keys as text: it is the same source only where every key already is a str
+    # (json.dumps writes the keys True / 1 / None as "true" / "1" / "null", which the key routine reads differently)
+    if coregen.jsonable(wire) and str_keys(wire):
         shapes["json"] = json.dumps(wire)
     results = {}
     for name, src in shapes.items():
